@@ -183,11 +183,43 @@ func absDoc(doc *did.Doc) *DocAbs {
 
 	parts = append(parts, "ep|"+d.EP, "rk|"+strings.Join(d.Keys, ","), "route|"+strings.Join(docRes(doc).Routing, ","))
 
+	// service type, priority, accept and the verification relationships (which key is listed under which)
+	for i := range doc.Service {
+		sv := &doc.Service[i]
+		acc, _ := sv.ServiceEndpoint.Accept()
+		id := sv.ID
+		if k := strings.Index(id, "#"); k >= 0 {
+			id = id[k:]
+		}
+
+		parts = append(parts, fmt.Sprintf("svc|%d|%s|%s|%d|%v|%v|%v", i, id, sv.Type, sv.Priority, sv.Accept, acc, sv.Properties))
+	}
+
+	rel := func(name string, vs []did.Verification) {
+		for i := range vs {
+			parts = append(parts, fmt.Sprintf("rel|%s|%x", name, vs[i].VerificationMethod.Value))
+		}
+	}
+
+	rel("authentication", doc.Authentication)
+	rel("assertionMethod", doc.AssertionMethod)
+	rel("keyAgreement", doc.KeyAgreement)
+	rel("capabilityDelegation", doc.CapabilityDelegation)
+	rel("capabilityInvocation", doc.CapabilityInvocation)
+
 	sort.Strings(parts)
 	sum := sha256.Sum256([]byte(doc.ID + "\n" + strings.Join(parts, "\n")))
 	d.H = fmt.Sprintf("%x", sum[:8])
 
 	return d
+}
+
+// fullRes is docRes plus the digest of the remaining members.
+func fullRes(doc *did.Doc) Res {
+	r := docRes(doc)
+	r.Digest = absDoc(doc).H
+
+	return r
 }
 
 // ---------- per-agent trace for the Coq correspondence ----------
